@@ -723,6 +723,16 @@ nni_aio_expire_loop(void *arg)
 			aio = nni_list_next(&q->eq_list, aio);
 		}
 
+#ifdef NNG_VERIF
+		if ((nni_verif.clock != NULL) && (exp_idx == 0)) {
+			// An entry is due exactly now (not yet expired).  With
+			// a real clock this loop spins until the next tick;
+			// a virtual clock does not tick on its own, so give
+			// up the lock for a moment instead.
+			(void) nni_cv_until(cv, now + 1);
+			continue;
+		}
+#endif
 		for (uint32_t i = 0; i < exp_idx; i++) {
 			aio = expires[i];
 			if (q->eq_stop) {
